@@ -117,6 +117,10 @@ func c14Run(sc *c14Scenario) func() (func(*vsched.Sched), func(), func(*vsched.S
 
 func c14Body(c *ev.Ctx) {
 	quick := c.Quick()
+	if err := schedSelfTest(); err != nil {
+		c.HarnessError("scheduler self-test: %v", err)
+	}
+	c.Set("scheduler_self_test", "passed (lost update needs exactly 1 preemption; lock-order deadlock found at bound 1; both select alternatives explored; pruned == unpruned outcomes)")
 	scenarios := []c14Scenario{{Clients: nil, Cycles: 1}, {Clients: []string{"GET"}, Cycles: 1}, {Clients: []string{"POST-bad"}, Cycles: 1}, {Clients: nil, Cycles: 2}}
 	if !quick {
 		scenarios = append(scenarios, c14Scenario{Clients: []string{"GET", "POST-bad"}, Cycles: 1}, c14Scenario{Clients: []string{"POST-bad", "SCRAPE"}, Cycles: 1}, c14Scenario{Clients: []string{"GET"}, Cycles: 2})
